@@ -345,3 +345,13 @@ def alias_of2(fi: "FuncInfo", baseline_name: str):
     if baseline_name in gone and gone.index(baseline_name) < len(new):
         return new[gone.index(baseline_name)], False
     return None
+
+
+def current_name(fi: "FuncInfo", baseline_name: str):
+    """(name, exact?) of the local the specification calls `baseline_name` in the function as it is now"""
+    cur = local_names(_strip(fi.node))
+    b = baseline_locals().get(fi.qualname)
+    if baseline_name in cur and (not b or baseline_name in b.get("locals", [])) and (not b or b.get("shape") == shape_hash(fi.node) or baseline_name in cur):
+        return baseline_name, True
+    r = alias_of2(fi, baseline_name)
+    return r if r is not None else (baseline_name, True)
